@@ -21,7 +21,7 @@ import RedisGoModel.Props.C16Sem
 
     Hypotheses, all explicit: `segSize % 8 = 0` (a fact about the configured sizes, `C16.segmentSize_facts`; *not* an
     artefact: `C16.seg_not_mod8_witness`), wire-size bounds (`Call.Fits`, metadata below 2^55 bytes), the usage
-    contract `SaveOk`. Not covered here: `ReadAll` on a suffix of the files (`selectWALFiles` after `ReleaseLockTo`). -/
+    contract `SaveOk`. These theorems read all segment files; `Open`'s file selection (`selectWALFiles`) is C16Select.lean. -/
 namespace WalFile
 open WalCodec
 
